@@ -320,6 +320,44 @@ fn apply_edit(s: &mut Sem, e: &Edit, idx: usize) {
     }
 }
 
+/// Methods of array types are the JDK's (`clone`); their descriptors never name application classes. The random
+/// generator does not know that; dukebox deliberately leaves such descriptors alone.
+fn jdk_array_method(r: &mut MemberRef) {
+    if r.owner.as_bytes().first() == Some(&b'[') {
+        r.name = j("clone");
+        r.desc = j("()Ljava/lang/Object;");
+    }
+}
+fn arr_handle(h: &mut Handle) {
+    if h.kind >= 5 {
+        jdk_array_method(&mut h.member);
+    }
+}
+fn arr_dynamic(d: &mut Dynamic) {
+    arr_handle(&mut d.bsm);
+    d.args.iter_mut().for_each(arr_const);
+}
+fn arr_const(c: &mut Const) {
+    match c {
+        Const::MethodHandle(h) => arr_handle(h),
+        Const::Dynamic(d) => arr_dynamic(d),
+        _ => {}
+    }
+}
+fn array_methods_are_jdk_methods(s: &mut Sem) {
+    for m in &mut s.methods {
+        let Some(c) = &mut m.code else { continue };
+        for i in &mut c.insns {
+            match i {
+                Insn::Invoke(_, r) => jdk_array_method(r),
+                Insn::Ldc(k) => arr_const(k),
+                Insn::InvokeDynamic(d) => arr_dynamic(d),
+                _ => {}
+            }
+        }
+    }
+}
+
 fn tame_member(r: &mut MemberRef) {
     if r.owner.as_bytes().first() == Some(&b'[') {
         r.owner = j("java/lang/Object");
@@ -382,6 +420,7 @@ pub fn build_class(p: &ClassPlan) -> Sem {
         let (minor, major, access, this_class, super_class, fields, methods) = (s.minor, s.major, s.access, s.this_class.clone(), s.super_class.clone(), std::mem::take(&mut s.fields), std::mem::take(&mut s.methods));
         s = Sem { minor, major, access, this_class, super_class, fields, methods, ..Sem::default() };
     }
+    array_methods_are_jdk_methods(&mut s);
     if p.tame {
         tame(&mut s);
     }
